@@ -289,6 +289,21 @@ class ModelFSSpec:
     def makedirs(self, p, exist_ok=False):
         self.fs.dirs.add(str(p).rstrip("/"))
 
+    def size(self, p):
+        """byte size of a file: a symbolic integer per distinct content (equal contents have equal
+        sizes, different contents may or may not - the solver chooses)"""
+        content = self.fs.files[str(p)]
+        memo = self.fs.__dict__.setdefault("_size_memo", [])
+        for c, v in memo:
+            if c == content:
+                return v
+        v = self.fs.ctx.int("size_of_content_%d" % len(memo), lo=0, hi=2)
+        memo.append((content, v))
+        return v
+
+    def info(self, p, **k):
+        return {"name": str(p), "size": self.size(p), "type": "file" if self.isfile(p) else "directory"}
+
     def copy(self, a, b, **k):
         self.fs.fault("copy")
         self.fs.files[str(b)] = self.fs.files[str(a)]
